@@ -54,7 +54,67 @@ def cases(tier, seed):
             if "force" not in first and first.startswith("gen"):
                 pass
             out.append({"kind": "hist", "layout": lay, "first": first, "depth": depth})
+    # environments: a forced generation under one environment, then a non-force re-run under another one; the tree is up to date, so the
+    # re-run must succeed and touch nothing however the temp directory and the project root are reached and whether post-processing is on
+    for out_pkg in ("cli", "pk.cli"):
+        for pp in (False, True):
+            for e1 in ENVS:
+                for e2 in ENVS:
+                    out.append({"kind": "envs", "out": out_pkg, "postprocess": pp, "first_env": e1, "second_env": e2})
     return out
+
+
+ENVS = ["plain", "tmp-symlink", "root-symlink", "tmp+root-symlink"]
+
+
+def run_envs(case):
+    import contextlib
+    import tempfile
+
+    doc = docs.get("petstore")
+    label = f"envs|out={case['out']}|postprocess={case['postprocess']}|{case['first_env']}->{case['second_env']}"
+    found = []
+
+    @contextlib.contextmanager
+    def env(name, d):
+        old_td, old_env = tempfile.tempdir, os.environ.get("TMPDIR")
+        try:
+            if "tmp" in name:
+                real = os.path.join(d, "tmp-real")
+                os.makedirs(real, exist_ok=True)
+                link = os.path.join(d, "tmp-link")
+                if not os.path.lexists(link):
+                    os.symlink("tmp-real", link)
+                tempfile.tempdir = link
+                os.environ["TMPDIR"] = link
+            yield os.path.join(d, "proj-link" if "root" in name else "proj")
+        finally:
+            tempfile.tempdir = old_td
+            if old_env is None:
+                os.environ.pop("TMPDIR", None)
+            else:
+                os.environ["TMPDIR"] = old_env
+
+    with sandbox.scratch("c09e-") as d:
+        os.makedirs(os.path.join(d, "proj"))
+        os.symlink("proj", os.path.join(d, "proj-link"))
+        with env(case["first_env"], d) as root:
+            files, err = sandbox.generate(doc, root, output_package=case["out"], force=True, no_postprocess=not case["postprocess"], spec_path=os.path.join(d, "spec.json"))
+        if err is not None:
+            return {"findings": [{"sig": f"C09|envs|forced generation fails in environment {case['first_env']}", "key": label, "msg": f"{type(err).__name__}: {err} | {label}"[:300]}],
+                    "outcome": "envs:finding", "nontrivial": label}
+        before = sandbox.snapshot(os.path.join(d, "proj"))
+        with env(case["second_env"], d) as root:
+            files, err = sandbox.generate(doc, root, output_package=case["out"], force=False, no_postprocess=not case["postprocess"], spec_path=os.path.join(d, "spec.json"), reset=False)
+        after = sandbox.snapshot(os.path.join(d, "proj"))
+        if err is not None:
+            found.append({"sig": "C09|envs|noop|re-run without force over an up-to-date tree fails in another environment", "key": label,
+                          "msg": f"{type(err).__name__}: {str(err)[:150]} | {label}"})
+        if before != after:
+            ch = sorted(k for k in set(before) | set(after) if before.get(k) != after.get(k))
+            found.append({"sig": "C09|envs|noop|re-run without force touches the tree", "key": label, "msg": f"{ch[:5]} | {label}"})
+    return {"findings": found, "evals": 2, "nontrivial": label, "outcome": "envs:" + ("finding" if found else "ok"), "states": 2, "transitions": 2, "validated": 2,
+            "sample": {"case": label}}
 
 
 # ----------------------------------------------------------------------------------------------
@@ -268,4 +328,6 @@ def run_hist(case):
 def run_case(case):
     if case["kind"] == "procs":
         return run_procs(case)
+    if case["kind"] == "envs":
+        return run_envs(case)
     return run_hist(case)
